@@ -363,7 +363,7 @@ func init() {
 	core.Register(&core.Prop{
 		ID:    "C04",
 		Title: "Sets hold each member once and answer membership exactly",
-		Cases: func(tier string) int { return tierN(tier, 40000, 800000) },
+		Cases: func(tier string) int { return tierN(tier, 40000, 2400000) },
 		Run:   runC04,
 		Rule: "random histories of variadic Add/Remove/Contains and Clear on HashSet, LinkedHashSet and TreeSet (natural, reversed and coarsened comparators), argument lists with 0,1,2,3,17 values, duplicates inside one call, " +
 			"members and non-members mixed, constructor arguments, and a final remove-then-re-add pass; after every mutating call Contains is asked for the whole alphabet and Values/Size/Empty are compared with a model set. " +
